@@ -29,11 +29,15 @@ const threshold = cluster.MaxGossipPacketSize / 2
 // ---------- replayable form of a case ----------
 
 type Case struct {
-	Kind  string     `json:"kind"` // chan | wire | deleg | mesh
-	Chan  *ChanCase  `json:"chan,omitempty"`
-	Wire  *WireCase  `json:"wire,omitempty"`
-	Deleg *DelegCase `json:"deleg,omitempty"`
+	Kind   string      `json:"kind"` // chan | wire | deleg | mesh
+	Chan   *ChanCase   `json:"chan,omitempty"`
+	Wire   *WireCase   `json:"wire,omitempty"`
+	Deleg  *DelegCase  `json:"deleg,omitempty"`
+	Member *MemberCase `json:"member,omitempty"`
+	Frame  *FrameCase  `json:"frame,omitempty"`
 }
+
+type FrameCase struct{}
 
 type ChanOp struct {
 	Kind  string   `json:"kind"` // bcast | env
@@ -493,6 +497,7 @@ func runWire(t *testing.T, c *WireCase) (string, []vh.Violation, map[string]int)
 // ---------- generators ----------
 
 var chanKeys = [][]byte{[]byte("nfl"), []byte("sil"), []byte("nfl"), []byte("sil"), {}, []byte("a-rather-long-state-key-0123456789-0123456789-0123456789-0123456789-0123456789-0123456789-0123456789-0123456789-0123456789-0123456789-0123456789")}
+
 // (a key that is not valid UTF-8 cannot reach Broadcast: NewChannel panics registering its metrics label)
 
 var peerNames = []string{"p1", "p2", "p3"}
